@@ -222,8 +222,9 @@ fn assign_base(op: &BinOp) -> Option<BinOp> {
         BinOp::MulAssign(_) => BinOp::Mul(Default::default()),
         BinOp::DivAssign(_) => BinOp::Div(Default::default()),
         BinOp::RemAssign(_) => BinOp::Rem(Default::default()),
-        BinOp::BitXorAssign(_) | BinOp::BitAndAssign(_) | BinOp::BitOrAssign(_) | BinOp::ShlAssign(_)
-        | BinOp::ShrAssign(_) => BinOp::BitXor(Default::default()),
+        BinOp::BitOrAssign(_) => BinOp::BitOr(Default::default()),
+        BinOp::BitAndAssign(_) => BinOp::BitAnd(Default::default()),
+        BinOp::BitXorAssign(_) | BinOp::ShlAssign(_) | BinOp::ShrAssign(_) => BinOp::BitXor(Default::default()),
         _ => return None,
     })
 }
@@ -793,10 +794,27 @@ impl<'a> Cx<'a> {
                 let ty = self.ty(&t)?;
                 return Ok((L::atom(self.qual(name, &m)), ty));
             }
+            if let Some(en) = self.glob_enum_of(name) {
+                let (lean, payload) = self.variant(&p.path)?;
+                if !payload.is_empty() {
+                    return Err(format!("variant `{}` used without its payload", toks(e)));
+                }
+                return Ok((L::atom(lean), Ty::Named(en)));
+            }
             if self.slice_mode && name.chars().next().map_or(false, |c| c.is_lowercase() || c == '_') {
                 return Ok(self.add_free(name));
             }
             return Err(format!("path `{}` does not resolve to a local, a parameter or a translated const", name));
+        }
+        if segs.len() >= 2 && segs[segs.len() - 2] == "Ordering" {
+            // `std::cmp::Ordering` → Lean's `Ordering`
+            let l = match segs[segs.len() - 1].as_str() {
+                "Less" => "Ordering.lt",
+                "Equal" => "Ordering.eq",
+                "Greater" => "Ordering.gt",
+                o => return Err(format!("unknown `Ordering::{}`", o)),
+            };
+            return Ok((L::atom(l), Ty::Opaque("Ordering".into())));
         }
         if segs.len() == 2 {
             if let (Some(k), "MAX" | "MIN") = (IntK::of(&segs[0]), segs[1].as_str()) {
@@ -812,6 +830,7 @@ impl<'a> Cx<'a> {
         if en == "Self" {
             en = self.self_ty.clone().unwrap_or(en);
         }
+        let en = self.reg.aliases.get(&en).cloned().unwrap_or(en);
         Ok((L::atom(lean), Ty::Named(en)))
     }
 
@@ -886,6 +905,17 @@ impl<'a> Cx<'a> {
                     let t = if ty == Ty::Unknown { Ty::Int(None) } else { ty.clone() };
                     Ok((cx.range_chk(L::Infix(op, bx(l), bx(r)), &t, lit_only, e), t))
                 }
+                Ty::F64 => {
+                    // float arithmetic is not modelled: the operation becomes a function parameter
+                    let key = format!("f64 {}", op);
+                    let Some(param) = cx.cfg.ops.get(&key).cloned() else {
+                        return Err(format!("f64 arithmetic `{}` is not listed in the item's `ops` (`{}`)", op, toks(e)));
+                    };
+                    if !cx.cast_params.iter().any(|p| p.0 == param) {
+                        cx.cast_params.push((param.clone(), "IQE.F64 → IQE.F64 → IQE.F64".into()));
+                    }
+                    Ok((L::app(&param, vec![l, r]), Ty::F64))
+                }
                 _ => Err(format!("arithmetic `{}` on non-integer operands (`{}`)", op, toks(e))),
             }
         };
@@ -918,8 +948,21 @@ impl<'a> Cx<'a> {
             BinOp::Add(_) => arith(self, "+", l, r),
             BinOp::Sub(_) => arith(self, "-", l, r),
             BinOp::Mul(_) => arith(self, "*", l, r),
+            BinOp::Div(_) if ty == Ty::F64 => arith(self, "/", l, r),
             BinOp::Div(_) => divrem(true, l, r),
             BinOp::Rem(_) => divrem(false, l, r),
+            // `|` / `&` on bools evaluate both operands; both are pure here, so the value is that of `||` / `&&`
+            // (the side conditions of the right operand are guarded as for `||` / `&&`, which is weaker: accepted
+            // only when the right operand carries none)
+            BinOp::BitOr(_) | BinOp::BitAnd(_) if ty == Ty::Bool => {
+                let mut cs = vec![];
+                r.conds(&mut cs);
+                if !cs.is_empty() {
+                    return Err(format!("non-short-circuit bool operator with a side-conditioned right operand (`{}`)", toks(e)));
+                }
+                let op = if matches!(b.op, BinOp::BitOr(_)) { "||" } else { "&&" };
+                Ok((L::Infix(op, bx(l), bx(r)), Ty::Bool))
+            }
             BinOp::And(_) => Ok((L::Infix("&&", bx(l), bx(r)), Ty::Bool)),
             BinOp::Or(_) => Ok((L::Infix("||", bx(l), bx(r)), Ty::Bool)),
             BinOp::Eq(_) if structural => Ok((L::Infix("==", bx(l), bx(r)), Ty::Bool)),
@@ -1058,6 +1101,7 @@ impl<'a> Cx<'a> {
                     }
                     return Ok((v, t));
                 }
+                Stmt::Item(syn::Item::Use(u)) => self.use_stmt(u)?,
                 other => return Err(format!("statement with side effects in a pure block: `{}`", short(other))),
             }
         }
@@ -1266,6 +1310,32 @@ impl<'a> Cx<'a> {
             }
             _ => {}
         }
+        if self.cfg.erase_calls.contains(&head) && args.len() == 1 {
+            // transparent wrapper (`OrderedFloat(x)`): the value itself
+            return self.expr(args[0]);
+        }
+        if let Some(cc) = self.cfg.calls.get(&head).cloned() {
+            // a function outside the subset: it becomes a parameter of the generated definition
+            let mut ls = vec![];
+            let mut sig = vec![];
+            for a in &args {
+                let (l, t) = self.expr(a)?;
+                ls.push(l);
+                sig.push(self.lean_ty_p(&t, true));
+            }
+            let ret = match &cc.ret {
+                Some(t) => {
+                    let st: syn::Type = syn::parse_str(t).map_err(|e| format!("config call `{}` ret: {}", head, e))?;
+                    self.ty(&st)?
+                }
+                None => return Err(format!("config call `{}` needs a `ret` type", head)),
+            };
+            sig.push(self.lean_ty_p(&ret, true));
+            if !self.cast_params.iter().any(|p| p.0 == cc.lean) {
+                self.cast_params.push((cc.lean.clone(), sig.join(" → ")));
+            }
+            return Ok((L::App(cc.lean.clone(), ls), ret));
+        }
         let segs: Vec<String> = p.path.segments.iter().map(|s| s.ident.to_string()).collect();
         let key = match segs.as_slice() {
             [f] => f.clone(),
@@ -1277,17 +1347,22 @@ impl<'a> Cx<'a> {
             return self.call_translated(&fi, vec![], &args);
         }
         // enum variant with payload
-        if segs.len() >= 2 {
+        if segs.len() >= 2 || self.glob_enum_of(&segs[0]).is_some() {
             if let Ok((lean, payload)) = self.variant(&p.path) {
                 if payload.len() == args.len() {
                     let mut ls = vec![];
                     for a in &args {
                         ls.push(self.expr(a)?.0);
                     }
-                    let mut en = segs[segs.len() - 2].clone();
+                    let mut en = if segs.len() >= 2 {
+                        segs[segs.len() - 2].clone()
+                    } else {
+                        self.glob_enum_of(&segs[0]).unwrap_or_default()
+                    };
                     if en == "Self" {
                         en = self.self_ty.clone().unwrap_or(en);
                     }
+                    let en = self.reg.aliases.get(&en).cloned().unwrap_or(en);
                     return Ok((L::App(lean, ls), Ty::Named(en)));
                 }
             }
@@ -1370,6 +1445,7 @@ impl<'a> Cx<'a> {
                     ty = t;
                 }
                 Stmt::Expr(e, _) => out.extend(self.do_stmt(e)?),
+                Stmt::Item(syn::Item::Use(u)) => self.use_stmt(u)?,
                 other => return Err(format!("unsupported statement `{}`", short(other))),
             }
         }
@@ -1411,6 +1487,21 @@ impl<'a> Cx<'a> {
                 };
                 Ok(vec![S::If { c, t, e }])
             }
+            Expr::If(i) => {
+                // statement-level `if let P = s { A } [else { B }]`  ≡  `match s { P => A, _ => B }`
+                let Expr::Let(l) = &*i.cond else { unreachable!() };
+                let (s, st) = self.scrutinee(&l.expr)?;
+                self.scopes.push(vec![]);
+                let p = self.pat(&l.pat, &st, true);
+                let t = p.and_then(|p| self.do_block(&i.then_branch, Tail::Unit).map(|(b, _)| (p, b)));
+                self.scopes.pop();
+                let (p, t) = t?;
+                let e = match &i.else_branch {
+                    Some((_, e)) => self.do_stmt(e)?,
+                    None => vec![],
+                };
+                Ok(vec![S::Match { s, arms: vec![(p, t), ("_".into(), e)] }])
+            }
             Expr::Match(m) => {
                 let (s, st) = self.scrutinee(&m.expr)?;
                 let mut arms = vec![];
@@ -1442,6 +1533,7 @@ impl<'a> Cx<'a> {
         }
         match e {
             Expr::Return(_) => Ok((self.do_stmt(e)?, Ty::Never)),
+            Expr::If(i) if tail == Tail::Unit && matches!(&*i.cond, Expr::Let(_)) => Ok((self.do_stmt(e)?, Ty::Never)),
             Expr::If(i) if !matches!(&*i.cond, Expr::Let(_)) => {
                 let (c, _) = self.expr(&i.cond)?;
                 let (t, tt) = self.do_block(&i.then_branch, tail)?;
@@ -1770,10 +1862,27 @@ pub fn translate_const(cx: &mut Cx, name: &str, doc: &str, c: &syn::ItemConst) -
     Ok((format!("/-- {} -/\ndef {} : {} := {}\n", doc, name, lt, l.flat()), vec![format!("{} : {}", name, lt)]))
 }
 
-pub fn translate_enum(cx: &mut Cx, doc: &str, e: &syn::ItemEnum) -> R<(String, Vec<String>)> {
+/// `only`: when non-empty, the listed variants alone are translated (a `match` that names another variant fails).
+pub fn translate_enum(cx: &mut Cx, doc: &str, e: &syn::ItemEnum, only: &[String]) -> R<(String, Vec<String>)> {
     let name = e.ident.to_string();
+    for o in only {
+        if !e.variants.iter().any(|v| v.ident == o) {
+            return Err(format!("enum `{}` has no variant `{}`", name, o));
+        }
+    }
+    let vs: Vec<&syn::Variant> = e.variants.iter().filter(|v| only.is_empty() || only.iter().any(|o| v.ident == o)).collect();
+    let doc = if only.is_empty() { doc.to_string() } else { format!("{} (only the listed variants)", doc) };
+    emit_enum(cx, &name, &doc, &vs)
+}
+
+/// An enum of an external crate, declared in `items.json` (`variants`: Rust variant syntax).
+pub fn translate_extern_enum(cx: &mut Cx, name: &str, doc: &str, variants: &[syn::Variant]) -> R<(String, Vec<String>)> {
+    emit_enum(cx, name, doc, &variants.iter().collect::<Vec<_>>())
+}
+
+fn emit_enum(cx: &mut Cx, name: &str, doc: &str, variants: &[&syn::Variant]) -> R<(String, Vec<String>)> {
     let mut out = format!("/-- {} -/\ninductive {} where\n", doc, name);
-    for v in &e.variants {
+    for v in variants {
         let mut line = format!("  | {}", v.ident);
         match &v.fields {
             syn::Fields::Unit => {}
@@ -1783,13 +1892,161 @@ pub fn translate_enum(cx: &mut Cx, doc: &str, e: &syn::ItemEnum) -> R<(String, V
                     line.push_str(&format!(" (x{} : {})", i, cx.lean_ty(&t)));
                 }
             }
-            syn::Fields::Named(_) => return Err(format!("variant `{}` with named fields", v.ident)),
+            syn::Fields::Named(n) => {
+                for f in &n.named {
+                    let t = cx.ty(&f.ty)?;
+                    let id = f.ident.as_ref().map(|i| i.to_string()).unwrap_or_default();
+                    line.push_str(&format!(" ({} : {})", lean_ident(&id), cx.lean_ty(&t)));
+                }
+            }
         }
         out.push_str(&line);
         out.push('\n');
     }
     out.push_str("deriving DecidableEq, Repr, Inhabited\n");
     Ok((out, vec![format!("inductive {}", name)]))
+}
+
+/// The patterns (with guards) of a `match`, in source order, as a list of strings: pins the dispatch order
+/// that per-arm items (`kind: arm`) do not see.
+pub fn translate_arm_list(lean_name: &str, doc: &str, m: &syn::ExprMatch) -> (String, Vec<String>) {
+    let squash = |s: String| s.chars().filter(|c| !c.is_whitespace()).collect::<String>();
+    let items: Vec<String> = m
+        .arms
+        .iter()
+        .map(|a| {
+            let mut t = squash(toks(&a.pat));
+            if let Some((_, g)) = &a.guard {
+                t.push_str(" if ");
+                t.push_str(&squash(toks(g)));
+            }
+            format!("{:?}", t)
+        })
+        .collect();
+    let body = items.join(",\n   ");
+    (
+        format!("/-- {} -/\ndef {} : List String :=\n  [{}]\n", doc, lean_name, body),
+        vec![format!("{} : List String", lean_name)],
+    )
+}
+
+fn assigned_names(ss: &[S], out: &mut Vec<String>) {
+    for s in ss {
+        match s {
+            S::Assign { name, .. } => {
+                if !out.contains(name) {
+                    out.push(name.clone());
+                }
+            }
+            S::If { t, e, .. } => {
+                assigned_names(t, out);
+                assigned_names(e, out);
+            }
+            S::Match { arms, .. } => arms.iter().for_each(|(_, b)| assigned_names(b, out)),
+            S::LetDo { body, .. } => assigned_names(std::slice::from_ref(&**body), out),
+            _ => {}
+        }
+    }
+}
+
+/// One arm of a `match`: the variables bound by the arm's pattern become the parameters. A pure body is
+/// translated as an expression. A body that assigns through the pattern's `&mut` bindings becomes an
+/// `Id.run do` block that returns the matched value of tuple component `state` (the whole scrutinee when
+/// `state` is `None`) rebuilt from the updated bindings — the new value of the `&mut` place that was matched.
+pub fn translate_arm(
+    cx: &mut Cx,
+    lean_name: &str,
+    doc: &str,
+    arm: &syn::Arm,
+    scrutinee_ty: &syn::Type,
+    state: Option<usize>,
+) -> R<FnOut> {
+    if arm.guard.is_some() {
+        return Err("guarded arm".into());
+    }
+    let st = cx.ty(scrutinee_ty)?;
+    cx.scopes.push(vec![]);
+    let _whole = cx.pat(&arm.pat, &st, false)?;
+    let bound: Vec<(String, String, Ty)> =
+        cx.scopes.last().unwrap().iter().map(|v| (v.lean.clone(), v.key.clone(), v.ty.clone())).collect();
+    {
+        let mut seen = BTreeSet::new();
+        for b in &bound {
+            if !seen.insert(b.0.clone()) {
+                return Err(format!("pattern binds `{}` twice", b.0));
+            }
+        }
+    }
+    if !needs_do_expr(&arm.body) {
+        let (mut l, ty) = cx.expr(&arm.body)?;
+        let dflt = if matches!(ty, Ty::Int(_)) { "0" } else { "default" };
+        l.fill_unreachable(dflt);
+        return emit(cx, lean_name, doc, bound, ty, Body { pure_: Some(l), stmts: vec![] }, false);
+    }
+    // the value that is rebuilt: component `state` of a tuple pattern, or the whole pattern
+    let (sub_pat, sub_ty): (&Pat, Ty) = match (state, &arm.pat, &st) {
+        (Some(i), Pat::Tuple(t), Ty::Tuple(ts)) if i < t.elems.len() && ts.len() == t.elems.len() => (&t.elems[i], ts[i].clone()),
+        (None, p, t) => (p, t.clone()),
+        _ => return Err("`state` does not select a component of a tuple pattern".into()),
+    };
+    // render the sub-pattern as an expression over the same variables (a scratch scope keeps the bindings unique)
+    cx.scopes.push(vec![]);
+    let rebuilt = cx.pat(sub_pat, &sub_ty, false);
+    cx.scopes.pop();
+    let rebuilt = rebuilt?;
+    if rebuilt.split(|c: char| !(c.is_alphanumeric() || c == '_' || c == '.')).any(|w| w == "_") {
+        return Err("the state pattern has a wildcard: the updated value cannot be rebuilt".into());
+    }
+    let mut stmts = cx.do_stmt(&arm.body)?;
+    let mut assigned = vec![];
+    assigned_names(&stmts, &mut assigned);
+    stmts.push(S::Return(L::atom(rebuilt)));
+    let ret = sub_ty;
+    // emission (do-mode, no `self`)
+    let mut ps: Vec<(String, String)> = vec![];
+    for (n, _, t) in &bound {
+        let lt = cx.lean_ty(t);
+        ps.push((n.clone(), lt));
+    }
+    let extra = cx.cast_params.clone();
+    ps.extend(extra.iter().cloned());
+    let sig = params_text(&ps);
+    let ret_l = cx.lean_ty(&ret);
+    let mut init = String::new();
+    for a in &assigned {
+        init.push_str(&format!("  let mut {} := {}\n", a, a));
+    }
+    let ret_fn = |v: &L| v.flat();
+    let run = render_do(&stmts, 2, &DoMode { check: false, ret: &ret_fn });
+    let chk = render_do(&stmts, 2, &DoMode { check: true, ret: &ret_fn });
+    let trivial = !chk.contains("ok := ok ∧");
+    let mut out = format!("/-- {} -/\n", doc);
+    out.push_str(&format!("def {}{} : {} := Id.run do\n{}{}", lean_name, sig, ret_l, init, run));
+    out.push_str(&format!(
+        "/-- same control flow as `{}`; collects the side condition of every node that is evaluated -/\n",
+        lean_name
+    ));
+    out.push_str(&format!(
+        "def {}_inRange{} : Prop := Id.run do\n  let mut ok : Prop := True\n{}{}",
+        lean_name, sig, init, chk
+    ));
+    let ranges: Vec<String> = bound.iter().filter_map(|(n, _, t)| arg_range(cx, n, t)).collect();
+    let prop = if ranges.is_empty() { "True".to_string() } else { ranges.join(" ∧ ") };
+    out.push_str(&format!("def {}_argsInRange{} : Prop :=\n  {}\n", lean_name, sig, prop));
+    let defs = vec![
+        format!("{}{} : {}", lean_name, sig, ret_l),
+        format!("{}_inRange{} : Prop", lean_name, sig),
+        format!("{}_argsInRange{} : Prop", lean_name, sig),
+    ];
+    let info = FnInfo {
+        module: cx.module.to_string(),
+        lean: lean_name.to_string(),
+        ret,
+        trivial_in_range: trivial,
+        mut_self: false,
+        extra_params: extra.len(),
+    };
+    Ok(FnOut { lean: out, info, defs })
 }
 
 pub fn translate_struct(cx: &mut Cx, doc: &str, s: &syn::ItemStruct, kept: &[String]) -> R<(String, Vec<String>)> {
